@@ -99,7 +99,10 @@ class TailCallADEVPrimitive(ADEVPrimitive):
         konts: tuple[Callable[..., Any], Callable[..., Any]],
     ) -> "Dual":
         _, kdual = konts
-        return kdual(key, self.before_tail_call(key, dual_tree))
+        # the primitive and the continuation must not share a key: a later primitive
+        # would otherwise derive the same sub-key and draw the same noise
+        key, sub_key = jax.random.split(key)
+        return kdual(key, self.before_tail_call(sub_key, dual_tree))
 
     def get_batched_prim(self, dims: tuple[Any, ...]):
         return TailCallBatchedADEVPrimitive(self, dims)
